@@ -52,6 +52,7 @@ def run(repo, report, tier):
     report.guard("C01.R5", "first DP column", r5_first_column, repo, report)
     report.guard("C01.R5", "first DP row", r5_first_row, repo, report)
     report.guard("C01.R6", "comparers", r6_comparers, repo, report)
+    report.guard("C01.R6", "precision of the error rate", r6_rate_precision, repo, report)
     report.guard("C01.R7", "result tuple", r7_tuple, repo, report)
     report.guard("C01.R7", "best-match record", r7_record_complete, repo, report)
     report.guard("C01.R8", "match tables", r8_tables, repo, report)
@@ -588,6 +589,30 @@ def r5_cell(repo, report):
     _edit_environment_cell(repo, report, ee)
 
 
+def r6_rate_precision(repo, report):
+    """The error rate arrives as a Python float (a C double). Every typed slot it passes through in the Cython modules -
+    attribute, parameter, local - is a double: a C float rounds 0.08 down to 0.0799999982, and int(rate * 25) is then 1
+    where the documented bound floor(0.08 * 25) is 2."""
+    slots = []
+    for mname, m in sorted(repo.modules.items()):
+        if m.kind != "pyx":
+            continue
+        for n in ast.walk(m.tree):
+            if isinstance(n, ast.AnnAssign) and isinstance(n.target, ast.Name) and "rate" in n.target.id:
+                slots.append((f"{m.relpath}:{n.target.id}", src(n.annotation).strip("'\""), n.lineno))
+            elif isinstance(n, ast.arg) and "rate" in n.arg and n.annotation is not None:
+                slots.append((f"{m.relpath}:{n.arg}", src(n.annotation).strip("'\""), n.lineno))
+            # a typed local that receives the rate or a product with it
+            elif isinstance(n, ast.AnnAssign) and n.value is not None and isinstance(n.target, ast.Name) and src(n.annotation).strip("'\"") in ("float", "double") \
+                    and any(isinstance(x, (ast.Name, ast.Attribute)) and "rate" in (chain(x) or "") for x in ast.walk(n.value)):
+                slots.append((f"{m.relpath}:{n.target.id}", src(n.annotation).strip("'\""), n.lineno))
+    narrow = [f"{w} is declared '{t}' (line {ln})" for w, t, ln in slots if t != "double"]
+    report.ob("C01.R6", "the error rate is held in double precision throughout", not narrow, facts={"slots": len(slots), "narrow": narrow[:3]}, loc="src/cutadapt/_align.pyx", cases=len(slots),
+              expected="every C declaration that holds the maximum error rate is 'double'",
+              why=(f"{narrow[0]}: the rate is rounded to single precision before it is multiplied with the length, so for rates such as 0.02, 0.04, 0.08, 0.12 an occurrence with exactly rate x length errors is no longer admitted" if narrow else ""))
+    report.floor("C01.R6", "typed slots that hold the error rate", len(slots), 5)
+
+
 def r6_comparers(repo, report):
     c, loc_ = repo.need_method("PrefixComparer", "locate")
     body = strip_docstring(loc_.body)
@@ -900,6 +925,18 @@ def r1_min_overlap_clamp(repo, report):
     ok = isinstance(v, ast.Call) and chain(v.func) == "min" and len(v.args) == 2 and not v.keywords and sorted(nsrc(src(a)) for a in v.args) == sorted([mo[0], nsrc("len(self.sequence)")])
     report.ob("C01.R1", "SingleAdapter: min_overlap in force is min(requested, adapter length)", ok, facts={"stored": src(v)}, expected=f"self.min_overlap = min({mo[0]}, len(self.sequence))", loc=repo.loc(st[0]),
               why="" if ok else f"self.min_overlap = {src(v)}: an adapter shorter than the requested overlap can no longer be found, or matches shorter than the documented minimum are accepted")
+    # ... and at least 1. The command line refuses -O 0, but the same number also arrives through ';o=0' in a
+    # specification and through the API. With 0 the aligner reports a zero-length "occurrence" at the end of every read
+    # (nothing of the adapter was seen), while the k-mer prefilter - whose shortest k-mer is then the empty string of a
+    # zero-length window - answers on its own terms: the two disagree.
+    body = strip_docstring(init.body)
+    idx = next(i for i, st_ in enumerate(body) if any(n is st[0] for n in ast.walk(st_)))
+    p_ = mo[0]
+    forms = {f"{p_} < 1", f"{p_} <= 0", f"1 > {p_}", f"0 >= {p_}", f"not {p_} >= 1", f"not {p_} > 0"}
+    guard = [g for g in body[:idx] if isinstance(g, ast.If) and src(g.test) in forms and any(isinstance(x, ast.Raise) for x in g.body)]
+    report.ob("C01.R1", "SingleAdapter: a minimum overlap below 1 is refused", len(guard) == 1, facts={"guards": [src(g.test) for g in guard]}, loc=repo.loc(init), fact_key="min-overlap-zero" if not guard else None,
+              expected=f"if {p_} < 1: raise ValueError(...) before self.min_overlap is stored (every route - -O, ';o=', the API - passes here)",
+              why="" if guard else "-a 'ADAPTER;o=0' (or min_overlap=0 through the API) is accepted: the alignment alone then reports an empty match (astop = 0, rstart = rstop = len(read), 0 errors) for a read that contains nothing of the adapter, e.g. GATCACAGTCT;o=0 on CACTGCTCACTCCAACCC, while the k-mer prefilter rejects the same read - the reported match depends on whether the prefilter is used, and the match that the aligner reports is no occurrence of the adapter")
 
 
 def r5_first_column(repo, report):
